@@ -143,7 +143,6 @@ class ZipLatestUpdate(IndexedInputs, NodeUpdate):
         for n, v in (('Lrest0', VSeq(Lrest0, K_ELEM)), ('Mrest0', VSeq(Mrest0, K_MD)), ('Lp1', VSeq(Lp1, K_ELEM)),
                      ('Mp1', VSeq(Mp1, K_MD))):
             g[n] = v
-        g['Done'] = VSeq(z3.Empty(sym.SeqElemS), K_ELEM)
         g['l_cur'] = VElem(z3.Const('l_cur0', sym.Elem))
         g['m_cur'] = VSeq(z3.Const('m_cur0', sym.SeqMdS), K_MDE)
         # the lossless slot of `metadata` holds no reference of its own once the element was emitted
@@ -175,8 +174,14 @@ class ZipLatestUpdate(IndexedInputs, NodeUpdate):
         def flat_aw(I, v):
             t, k = I.seq_term(v)
             return VSeq(sym.flat_aw(t), K_AW)
+        def aw_list(I, v):
+            # the awaitables a node hands back: None stands for "nothing to wait for"
+            if isinstance(v, VNone):
+                return VSeq(z3.Empty(sym.SeqAwS), K_AW)
+            t, k = I.seq_term(v)
+            return VSeq(t, k)
         d.update({'unpack_elem': unpack_elem, 'zl_out': zl_out_, 'zl_md': zl_md_, 'mds_of': mds_of, 'pair': pair,
-                  'flat_aw': flat_aw})
+                  'flat_aw': flat_aw, 'aw_list': aw_list})
         return d
 
     LTAIL = '(Lrest0 if who_is_lossless else Lp1 + [x] + Ls)'
@@ -184,18 +189,17 @@ class ZipLatestUpdate(IndexedInputs, NodeUpdate):
 
     def loop_specs(self):
         return {('zip_latest.update', 0): LoopSpec(
+            drain='self.lossless_buffer',
             modifies=['self.lossless_buffer', 'local:L', 'local:md', 'ghost:emitted',
-                      'ghost:emitted_md', 'ghost:emit_rets', 'ghost:delta', 'ghost:Done', 'ghost:l_cur', 'ghost:m_cur',
+                      'ghost:emitted_md', 'ghost:emit_rets', 'ghost:delta', 'ghost:l_cur', 'ghost:m_cur',
                       'self.current_value', 'self.current_metadata'],
-            entry_ghost={'B_entry': 'list(self.lossless_buffer)', 'last_tail': self.LTAIL, 'md_tail': self.MTAIL,
-                         'delta_entry': 'delta'},
+            entry_ghost={'last_tail': self.LTAIL, 'md_tail': self.MTAIL, 'delta_entry': 'delta'},
             defines={'self.last': '[l_cur] + last_tail', 'self.metadata': '[m_cur] + md_tail'},
-            invariant=[('lossless_elements_consumed_in_order', 'B_entry == Done + list(self.lossless_buffer)'),
-                       ('other_inputs_untouched', 'list(self.last) == [self.last[0]] + last_tail and '
+            invariant=[('other_inputs_untouched', 'list(self.last) == [self.last[0]] + last_tail and '
                                                   'list(self.metadata) == [self.metadata[0]] + md_tail'),
-                       ('one_tuple_per_lossless_element', 'emitted == zl_out(last_tail, Done)'),
-                       ('metadata_per_tuple', 'emitted_md == zl_md(flat(md_tail), Done)'),
-                       ('released_what_was_emitted', 'delta == delta_entry - occ(mds_of(Done))'),
+                       ('one_tuple_per_lossless_element', 'emitted == zl_out(last_tail, _P)'),
+                       ('metadata_per_tuple', 'emitted_md == zl_md(flat(md_tail), _P)'),
+                       ('released_what_was_emitted', 'delta == delta_entry - occ(mds_of(_P))'),
                        ('awaitables_collected', 'L == flat_aw(emit_rets)')],
             typed_locals={'L': K_AW}, props=['C01', 'C03', 'C05', 'C10'], name='drain')}
 
@@ -219,12 +223,12 @@ class ZipLatestUpdate(IndexedInputs, NodeUpdate):
             Clause('C10.metadata_of_tuple_members', ['C10'],
                    text='emitted_md == (zl_md(flat(%s), %s) if %s else [])' % (mtail, B_all, all_seen)),
             Clause('C03.returns_flat_list_of_all_awaitables', ['C03'],
-                   text='implies(%s, list(result) == flat_aw(emit_rets))' % all_seen,
+                   text='implies(%s, aw_list(result) == flat_aw(emit_rets))' % all_seen,
                    note='the emitter must receive a flat list of awaitables (gen.convert_yielded / asyncio.gather)'),
         ] + self.standard_clauses()
 
 
-ALL_PARKED = [ZipLatestUpdate]     # too slow in its present form; see DESIGN
+ALL += [ZipLatestUpdate]
 
 
 # --------------------------------------------------------------------------- zip.update
